@@ -3,6 +3,7 @@ import ZapVerif.Proofs.Core
 import ZapVerif.Gen.FrontEnds
 import ZapVerif.Proofs.TransCores
 import ZapVerif.Model.TransCEAddX
+import ZapVerif.Proofs.TransLogger
 /-! # C05 — an entry is written exactly where its level is enabled; reported levels agree
 
 All theorems are about the core algebra of `Model/Core.lean` (arbitrary trees, arbitrary — also non-monotone —
@@ -459,5 +460,46 @@ theorem multiCore_Enabled_matches_source (P : Par) (mc : List Val) (l : Int) (ev
     simpa [mceAbs] using hl
   cases ha : mc.any (fun c => P.cen c l) <;> cases t' <;>
     simp [multiCore_Enabled_body, hrange, ha, mceAbs]
+
+end ZapVerif.C05
+
+/-! ## the level guards of `Logger.check` and `SugaredLogger.log/logln` ARE the source (table `Gen/TransLogger.lean`)
+
+Below DPanic a level the core disables has no effect at all: `Logger.check` returns nil without consulting the clock or
+the core's `Check` (the source-level content of `disabled_no_effects`); `SugaredLogger.log` / `logln` return before
+formatting.  At DPanic and above the guard never fires (Panic/Fatal must terminate even when disabled). -/
+namespace ZapVerif.C05
+set_option linter.unusedSimpArgs false
+open ZapVerif ZapVerif.GoMini ZapVerif.TransLogger ZapVerif.Gen.TransLogger
+
+theorem Logger_check_guard_matches_source (P : TransLogger.Par) (l : Int) (hl : l < 3) (hc : P.cen core l = false)
+    (msg name : Bytes) (clock : Val) (dev : Bool) (onPanic onFatal : List Val) (ev : List Val) (fuel : Nat) :
+    run (TransLogger.X P) (fuel + 2) "Logger_check" [.int l, .bytes msg] (logFld core name clock dev onPanic onFatal ev) =
+      .done [.list []] (logFld core name clock dev onPanic onFatal ev) := by
+  refine run_of_fin (TransLogger.X P) _ _ Gen.TransLogger.Logger_check [.int l, .bytes msg] _ _ _ rfl rfl ?_
+  show (exec (TransLogger.X P) (fuel + 2) Logger_check_body ⟨[("p0", .int l), ("p1", .bytes msg)], _⟩).fin = _
+  rw [exec_succ]
+  simp [Logger_check_body, hl, hc]
+
+/-- what the guard of `SugaredLogger.log` / `logln` lets through: everything at DPanic and above, and below that the
+    levels the base core enables; `Sugar.formatCheckWrite` stands for the rest of the function -/
+def sugarSpec (P : TransLogger.Par) (l : Int) : List Val :=
+  if l < 3 ∧ P.cen (.list []) l = false then [] else [Val.list [TransLogger.nm "Sugar.formatCheckWrite", .int l]]
+
+theorem Sugar_log_guard_matches_source (P : TransLogger.Par) (l : Int) (tmpl args ctx : Val) (ev : List Val) (fuel : Nat) :
+    run (TransLogger.X P) (fuel + 1) "Sugar_log" [.int l, tmpl, args, ctx] [("ev", .list ev)] =
+      .done [] [("ev", .list (ev ++ sugarSpec P l))] := by
+  refine run_of_fin (TransLogger.X P) _ _ Gen.TransLogger.Sugar_log [.int l, tmpl, args, ctx] _ _ _ rfl rfl ?_
+  show (exec (TransLogger.X P) (fuel + 1) Sugar_log_body ⟨[("p0", .int l), ("p1", tmpl), ("p2", args), ("p3", ctx)], _⟩).fin = _
+  rw [exec_succ]
+  by_cases h3 : l < 3 <;> cases hc : P.cen (.list []) l <;> simp [Sugar_log_body, sugarSpec, h3, hc, nm_fcw]
+
+theorem Sugar_logln_guard_matches_source (P : TransLogger.Par) (l : Int) (args ctx : Val) (ev : List Val) (fuel : Nat) :
+    run (TransLogger.X P) (fuel + 1) "Sugar_logln" [.int l, args, ctx] [("ev", .list ev)] =
+      .done [] [("ev", .list (ev ++ sugarSpec P l))] := by
+  refine run_of_fin (TransLogger.X P) _ _ Gen.TransLogger.Sugar_logln [.int l, args, ctx] _ _ _ rfl rfl ?_
+  show (exec (TransLogger.X P) (fuel + 1) Sugar_logln_body ⟨[("p0", .int l), ("p1", args), ("p2", ctx)], _⟩).fin = _
+  rw [exec_succ]
+  by_cases h3 : l < 3 <;> cases hc : P.cen (.list []) l <;> simp [Sugar_logln_body, sugarSpec, h3, hc, nm_fcw]
 
 end ZapVerif.C05
